@@ -75,6 +75,9 @@ def write_replay(prop: str, seed: int, payload: dict) -> str:
 
 def write_evidence(prop: str, tier: str, seed: int, coverage: dict, assumptions: list[str], wall_s: float, violations: int) -> str:
     d = os.path.join(VERIF, "evidence")
+    if os.environ.get("SIMPLAN_REPO"):
+        # a run against another tree (seeded change, mutant) must not overwrite the evidence of /repo
+        d = os.path.join(VERIF, "scratch", "evidence-other-tree")
     os.makedirs(d, exist_ok=True)
     coverage.setdefault("real_vs_stub", REAL_STUB)
     ev = {
